@@ -171,6 +171,9 @@ def case_history(case):
     srf(x)
     kr_ = gs.krige.Simple(m, x[:, :3], [0.3, 1.1, -0.4], mean=0.2)
     kr_(x)
+    fkw = dict(generator="Fourier", period=[9.0, 7.0, 11.0][:d], mode_no=[6, 4, 4][:d], seed=13)
+    srf_f = gs.SRF(m, **fkw)
+    srf_f(x)
     if case["order"] == "angles_first":
         m.angles = a1["angles"]
         m.anis = a1["anis"]
@@ -197,6 +200,8 @@ def case_history(case):
     Tx = og.isometrize(d, ang, anis, x)
     srf.model = m  # documented way to make the generator follow the model
     r.close("after in-place change + model re-assignment: SRF(x) == SRF(isotropic model)(T x)", srf(x, seed=13), gs.SRF(mI, seed=13, mode_no=16)(Tx), rtol=1e-10, atol=1e-11, **extra)
+    r.close("after in-place change: Fourier SRF(x) == Fourier SRF built from the changed model", srf_f(x, seed=13), gs.SRF(m, **fkw)(x), rtol=1e-10, atol=1e-11, **extra)
+    r.close("after in-place change: Fourier SRF(x) == Fourier SRF of the model constructed with the new setting", srf_f(x, seed=13), gs.SRF(fresh, **fkw)(x), rtol=1e-10, atol=1e-11, **extra)
     kr_.set_condition()  # documented refresh
     fb, vb = gs.krige.Simple(mI, og.isometrize(d, ang, anis, x[:, :3]), [0.3, 1.1, -0.4], mean=0.2)(Tx)
     fa, va = kr_(x)
